@@ -1,5 +1,6 @@
 SPECIFICATION Spec
 CONSTANT Deviations = {}
+CONSTANT Cap = 10000
 CONSTANT Scenarios <- AllScenarios
 CONSTANT ScCalls <- C12Calls
 CONSTANT ScHost <- C12Host
